@@ -27,6 +27,12 @@ NI void cur_set(long idx, const unsigned char *b, size_t n) {
 }
 
 /* sub-case labels; a label listed in the skip set (last argument "skip=a;b;c" of a command) is not executed */
+const char *pm_mask = "";   /* syntaxes the post-mortem encoders must not touch (types without that codec: known findings) */
+NI int pm_masked(const char *syn) {
+    const char *p = strstr(pm_mask, syn);
+    while(p) { if((p == pm_mask || p[-1] == ',') && (p[strlen(syn)] == 0 || p[strlen(syn)] == ',')) return 1; p = strstr(p + 1, syn); }
+    return 0;
+}
 static const char *skip_list;
 NI void cur_skip_set(const char *s) { skip_list = s; }
 NI int cur_label(const char *s) {
@@ -103,7 +109,7 @@ NI static void postmortem(asn_TYPE_descriptor_t *td, void *st) {
     asn_fprint(devnull, td, st);
     char eb[128]; size_t el = sizeof eb;
     asn_check_constraints(td, st, eb, &el);
-    for(int i = 0; i < 5; i++) asn_encode(0, SYNV[i], td, st, null_cb, 0);
+    for(int i = 0; i < 5; i++) if(!pm_masked(SYN[i])) asn_encode(0, SYNV[i], td, st, null_cb, 0);
 }
 
 /* rt TYPE HEX : the C01/C02 core */
@@ -262,6 +268,8 @@ int main(int ac, char **av) {
         alarm(wd);
         cur_skip_set(0);
         if(na > 1 && !strncmp(a[na - 1], "skip=", 5)) { cur_skip_set(a[na - 1] + 5); na--; }
+        pm_mask = "";
+        if(na > 1 && !strncmp(a[na - 1], "mask=", 5)) { pm_mask = a[na - 1] + 5; na--; }
         if(!strcmp(a[0], "rt")) cmd_rt(a, na, 0);
         else if(!strcmp(a[0], "rtl")) cmd_rt(a, na, 1);
         else if(!strcmp(a[0], "dec")) cmd_dec(a, na);
